@@ -87,7 +87,8 @@ func (s *Sim) opQMisuse(op *Op) {
 		c := -1
 		for k := 0; k < NumTypes; k++ {
 			t := (abs(op.N) + k) % NumTypes
-			if !e.Has(t) && U[t].Size > 0 && (op.M != "unsafe_getrel_missing" || U[t].IsRel) {
+			// (a zero-sized component cannot be read through a nil pointer, but it can be Set: the missing column faults)
+			if !e.Has(t) && (U[t].Size > 0 || op.M == "map_set_missing") && (op.M != "unsafe_getrel_missing" || U[t].IsRel) {
 				c = t
 				break
 			}
